@@ -6,6 +6,7 @@ import (
 	"sort"
 	"strings"
 
+	"git.metabarcoding.org/obitools/obitools4/obitools4/pkg/obiapat"
 	"git.metabarcoding.org/obitools/obitools4/obitools4/pkg/obiseq"
 	"git.metabarcoding.org/obitools/obitools4/obitools4/pkg/zverif/simrt"
 )
@@ -49,6 +50,7 @@ type mval struct {
 	qual []byte         // nil: none
 	tag  string         // scalar attribute "t"
 	nest map[string]int // nested map attribute "m"
+	list []int          // slice-valued attribute "l"
 	pmm  map[string]int // pairing_mismatches (position bearing)
 }
 
@@ -69,6 +71,9 @@ func (m mval) clone() mval {
 			c.pmm[k] = v
 		}
 	}
+	if m.list != nil {
+		c.list = append([]int{}, m.list...)
+	}
 	return c
 }
 
@@ -77,7 +82,7 @@ func (m mval) String() string {
 	if len(m.qual) > 0 {
 		q = fmt.Sprint(m.qual)
 	}
-	return fmt.Sprintf("seq=%s|q=%s|t=%s|m=%s|pmm=%s", m.seq, q, m.tag, mapString(m.nest), mapString(m.pmm))
+	return fmt.Sprintf("seq=%s|q=%s|t=%s|m=%s|pmm=%s|l=%v", m.seq, q, m.tag, mapString(m.nest), mapString(m.pmm), m.list)
 }
 
 func observe(s *obiseq.BioSequence) string {
@@ -91,7 +96,13 @@ func observe(s *obiseq.BioSequence) string {
 	}
 	nest, _ := s.GetIntMap("m")
 	pmm, _ := s.GetIntMap("pairing_mismatches")
-	return fmt.Sprintf("seq=%s|q=%s|t=%s|m=%s|pmm=%s", s.String(), q, tag, mapString(nest), mapString(pmm))
+	var list []int
+	if v, ok := s.GetAttribute("l"); ok {
+		if l, ok := v.([]int); ok && l != nil {
+			list = l
+		}
+	}
+	return fmt.Sprintf("seq=%s|q=%s|t=%s|m=%s|pmm=%s|l=%v", s.String(), q, tag, mapString(nest), mapString(pmm), list)
 }
 
 type handle struct {
@@ -199,6 +210,10 @@ func runHistory(tp *simrt.Tape, task int, nops int, fail func(class, msg string)
 				v.nest = map[string]int{"a": 1, "b": 2}
 				obj.SetAttribute("m", map[string]int{"a": 1, "b": 2})
 			}
+			if tp.Choose(3) == 2 {
+				v.list = []int{2, 5, 9}
+				obj.SetAttribute("l", []int{2, 5, 9})
+			}
 			if tp.Choose(3) == 2 && len(s) > 2 {
 				v.pmm = map[string]int{}
 				for k := 0; k <= tp.Choose(2); k++ {
@@ -237,6 +252,9 @@ func runHistory(tp *simrt.Tape, task int, nops int, fail func(class, msg string)
 			v := mval{tag: h.val.tag}
 			if h.val.nest != nil {
 				v.nest = h.val.clone().nest
+			}
+			if h.val.list != nil {
+				v.list = append([]int{}, h.val.list...)
 			}
 			dbl := h.val.seq + h.val.seq
 			end := to
@@ -318,6 +336,13 @@ func runHistory(tp *simrt.Tape, task int, nops int, fail func(class, msg string)
 					h.val.nest["a"] += 10
 				}
 			}
+			if l, ok := h.obj.GetAttribute("l"); ok {
+				// in-place edit of an element of a slice-valued annotation
+				if ll, ok := l.([]int); ok && len(ll) > 0 {
+					ll[0] += 100
+					h.val.list[0] += 100
+				}
+			}
 			desc = "SetAttribute(" + h.name + ")"
 		case 9: // recycle
 			h.obj.Recycle()
@@ -383,8 +408,27 @@ func runC07(rc *RunCtx) {
 	}
 }
 
-// static part: the three complement tables agree with the harness' independent table
+// static part: the complement tables agree with the harness' independent table
 func c07TableCheck(rc *RunCtx) {
+	// the C table behind primer patterns (obiapat): complementing a pattern must be the reverse
+	// complement of its text, symbol by symbol
+	for _, c := range []byte("acgtrymkswbdhvn") {
+		pat := "acgtac" + string(c) + "ttgcaa"
+		ap, err := obiapat.MakeApatPattern(pat, 0, false)
+		if err != nil {
+			rc.Violate("C07/complement-table/obiapat", "cannot build pattern %s: %v", pat, err)
+			return
+		}
+		cp, err := ap.ReverseComplement()
+		if err != nil {
+			rc.Violate("C07/complement-table/obiapat", "cannot complement pattern %s: %v", pat, err)
+			return
+		}
+		if got, want := strings.ToLower(cp.String()), modelRC(pat); got != want {
+			rc.Violate("C07/complement-table/obiapat", "reverse complement of pattern %s is %s, expected %s", pat, got, want)
+			return
+		}
+	}
 	syms := []byte(c07Alphabet)
 	sort.Slice(syms, func(i, j int) bool { return syms[i] < syms[j] })
 	for _, c := range syms {
